@@ -24,6 +24,8 @@ RULE = (
     "on every face, and (if at least one Dirichlet face and lambda > 0) the solution of the "
     "harness-assembled block system; non-trivial = grid not K-orthogonal (perturbed, simplex, "
     "affine image) or at least one Neumann face; distinct by (grid, mu, lambda, Neumann set, i); "
+    "also grids whose boundary faces carry the tip / fracture tag instead of the domain-boundary "
+    "tag (immersed grids), all or every second boundary face; "
     "two extra cases validate the harness block layout against closed-form expansion / shear "
     "solutions on Cartesian grids (failure = harness error, not a verdict); scale axis "
     "{1e-3, 1e3} on one grid per family, where the discretization is also repeated on the SAME "
@@ -113,6 +115,11 @@ def cases(tier):
         out += _sides_flips(sp, 1 if tier == "quick" else 2)
     for sp in PRISMS:  # mixed face types
         out += _sides_flips(sp, 1)
+    # grids whose boundary faces are tagged as tips / fracture faces (immersed grids)
+    for sp in ({"kind": "cart", "n": [2, 2]}, {"kind": "tri", "n": [2, 2], "pert": [[4, [1, -1]]]},
+               {"kind": "cart", "n": [2, 2, 2]}, {"kind": "tet", "n": [1, 1, 1], "pert": [[7, [1, -1, 1]]]}):
+        for retag in ("tip-all", "tip-half", "frac-all", "frac-half"):
+            out += [dict(c, retag=retag) for c in _sides_flips(sp, 0)]
     # ONE Tpsa object reused for two grids (same sizes / different topology; same topology /
     # different geometry; the same grid object moved)
     for kind, s1, s2 in G.SEQ_PAIRS_2D + G.SEQ_PAIRS_3D:
@@ -204,6 +211,18 @@ def _run_single(case, shared=None) -> Outcome:
     hmin = G.h_min(g)
     amax = float(np.linalg.norm(g.face_normals, axis=0).max())
     gname = G.name(spec)
+    retag = case.get("retag")
+    if retag:
+        # the boundary faces of a grid immersed in a larger mixed-dimensional grid are not
+        # domain-boundary faces: they carry the tip (or fracture) tag instead, exactly as
+        # pp.meshing produces for an immersed fracture grid; the boundary condition is given
+        # on them all the same
+        if shared is not None:
+            raise RuntimeError("retag is not combined with sequences")
+        sel = bf if retag.endswith("all") else bf[::2]
+        g.tags["domain_boundary_faces"][sel] = False
+        g.tags["tip_faces" if retag.startswith("tip") else "fracture_faces"][sel] = True
+        gname += "#" + retag
     korth = spec["kind"] == "cart" and not spec.get("pert") and not spec.get("set") and spec.get("map", "id") == "id"
     if spec.get("set") and not G.nonconvex_cells(g):
         raise RuntimeError("declared dart grid has no non-convex cell")
@@ -213,6 +232,8 @@ def _run_single(case, shared=None) -> Outcome:
     reuse = bool(case.get("reuse"))
     if shared is not None:
         gcls += f"/seq-{shared['kind']}{shared['step']}"
+    if retag:
+        gcls += "/" + retag
     tol_s = TOL * 2 * mu * amax / hmin
     tol_u, tol_r, tol_p = TOL, TOL * mu / hmin, TOL * max(mu, lam) / hmin
     tol_res = TOL * amax * max(2 * mu / hmin, 1.0)
